@@ -57,6 +57,7 @@ func c01(tier string) []*explore.Scenario {
 	out = append(out, withHistory(historyKinds(tier), c01Direct(2, env.PipeOpts{Cap: 64, Serialize: true}, 1, false), c01Direct(3, env.PipeOpts{Cap: 0}, 1, false), c01Direct(16, po, 0, false))...)
 	out = append(out, withConfig(configKinds(tier), c01Direct(2, env.PipeOpts{Cap: 64, Serialize: true}, 1, false), c01Direct(3, env.PipeOpts{Cap: 0}, 1, false), c01Direct(16, po, 0, false))...)
 	out = append(out, c01DemuxKeyReuse(1, 0, 1), c01DemuxKeyReuse(3, 0, 0), c01DemuxKeyReuse(2, 1, 0))
+	out = append(out, c17DoubleFault("C01", "both-while-forwarder-busy", 1))
 	// up to 64 callers whose handlers all wait: every queue of the path is full at once
 	out = append(out, c01Gated("direct", 64, 64, 0), c01Gated("direct", 32, 0, 0), c01Gated("demux", 64, 64, 0), c01Gated("demux", 40, 0, 0),
 		c01Gated("proxy", 40, 64, 0), c01Gated("proxy", 24, 0, 0), c01Gated("demux", 12, 0, 1), c01Gated("proxy", 64, 0, 0), c01Gated("demux", 20, 64, 1), c01Gated("proxy", 20, 64, 1), c01Gated("direct", 20, 0, 1))
